@@ -131,6 +131,27 @@ def _tbl_oracle(line, out):
             return ("violation", "missing snapshot record %d: %s" % (ri, out[:200]))
         r = kv(recs[ri])
         ri += 1
+        if op.startswith("sq="):
+            # the snapshot request lands while the publication of <op> is queued on the publication fence: the copy
+            # must be ONE state - the one before or the one after that publication
+            before = list(ref.flushed)
+            ref.apply(op[3:])
+            stat("tbl-snapshot:publication-queued-on-fence")
+            if r["ret"] == "E":
+                return ("violation", "TakeFileSnapshot failed although no fault was injected (publication queued)")
+            if r["dst"] == "1" and r["ret"] == "T":
+                if r["inc"] != "-" or r["other"] != "0" or r["open"] != "ok":
+                    return ("violation", "copy taken while a publication was queued is not well formed: " + recs[ri - 1][:300])
+                if r.get("idx") != r["dirs"]:
+                    return ("violation", "the copy's secondary-index parts (%s) are not those of its core parts (%s): "
+                                         "they belong to another state (publication queued on the fence)" % (r.get("idx"), r["dirs"]))
+                if r["rows"] not in (rows_str(before), rows_str(ref.flushed)):
+                    return ("violation", "copy content is neither the state before nor after the queued publication: " + r["rows"])
+                vals = sorted(int(x.split(".")[2]) for x in ids(r["rows"]))
+                ik = sorted(int(x) for x in ids(r["ikeys"])) if r["ikeys"] not in ("none", "err") else []
+                if ik != vals:
+                    return ("violation", "the opened copy holds traces %s but its ordered index holds entries for %s" % (vals, ik))
+            continue
         hooks, fail = parse_snap(op)
         pin = ids(r["pin"])
         pin_mem = {p[:-1] for p in pin if p.endswith("m")}
@@ -404,8 +425,11 @@ def db_oracle(line, out):
         if opn != "ok":
             return ("violation", "the copy does not open with OpenTSDB: " + opn)
         if bk != "same":
-            return ("violation", "the copy, uploaded by backupSnapshot and downloaded by restoreByName, does not open to "
-                                 "the same content: " + bk[:300])
+            return ("violation", "the copy, uploaded by backupSnapshot into the case's remote time-dir (incremental after "
+                                 "the first snapshot) and downloaded by restoreByName, is not the tree of that snapshot / "
+                                 "does not open to the same content: " + bk[:300])
+        if ri > 1:
+            stat("db-snapshot:incremental-backup-then-restore")
         stat("db-snapshot:backup+restore-roundtrip")
         got = {}
         for part in copy_s.split(";"):
@@ -557,6 +581,14 @@ def gen_ttb(rng):
         if target and rng.random() < 0.6 and not any(parts) and sum(1 for m in parts if not m) < 2:
             ops.append(maint("b"))
         nd = sum(1 for m in parts if not m)
+        if rng.random() < 0.3:
+            # snapshot request while a publication is queued on the publication fence
+            if not any(parts) and (nd < 2 or rng.random() < 0.5):
+                ops.append(maint("b"))
+            ops.append("sq=" + (maint("f") if any(parts) else maint()))
+            for _ in range(rng.randint(0, 2)):
+                ops.append(maint())
+            continue
         tok = "s"
         fail = None
         if rng.random() < 0.2:
@@ -591,7 +623,7 @@ def gen_db(rng):
     def maint(in_hook=False):
         r = rng.random()
         d = rng.choice(days)
-        h = rng.randint(0, 1) if rng.random() < 0.5 else 0
+        h = rng.randint(0, 2) if rng.random() < 0.6 else 0
         if r < 0.34 or not written:
             written.add(d)
             return "w%d%d" % (d, h)
@@ -614,6 +646,23 @@ def gen_db(rng):
             return "X%d" % d
         return "j%d" % d
 
+    if rng.random() < 0.25:
+        # an open segment whose shard list holds an EMPTY table (written, never flushed, idle-closed, reopened) before,
+        # between or after shards with flushed data
+        d = rng.choice(days)
+        empty = rng.sample(range(3), rng.randint(1, 2))
+        order = list(range(3))
+        rng.shuffle(order)
+        for h in order:
+            ops.append("w%d%d" % (d, h))
+        for h in range(3):
+            if h not in empty:
+                ops.append("f%d%d" % (d, h))
+        ops += ["c%d" % d, rng.choice(["h%d" % d, "w%d%d" % (d, rng.choice([h for h in range(3) if h not in empty]))])]
+        written.add(d)
+        if rng.random() < 0.5:
+            ops.append("s")
+            snaps += 1
     for i in range(n):
         if (rng.random() < 0.22 and written) or (i == n - 1 and snaps == 0):
             snaps += 1
@@ -644,7 +693,7 @@ class C19(vlib.Spec):
         "segment_snapshot_no_reopen", "deleted_segment_skipped", "closed_copy_recovers_as_source",
         "segment_snapshot_open", "shardOK_opens", "db_snapshot_opens", "db_failed_snapshot_removed",
         "trace_snapshot_index_consistent", "trace_snapshot_legacy_counterexample",
-        "trace_snapshot_legacy_counterexample_flush", "reachable_inv", "reachable_wf"]] + ["Banyan.Tie.C19." + t for t in ['copySegmentsTouchesNothing', 'dbErrorRemovesDst', 'dbStopsAtFirstError', 'dbUsesCopySegments', 'measureCurrentSnapshotIncRefUnderRLock', 'measureErrorRemovesDst', 'measureLinkErrorReturns', 'measureLoopSkipsMemParts', 'measureManifestAfterLinks', 'measureManifestNamedByEpoch', 'measureManifestNamesAllParts', 'measureNilSnapshotReturnsErrNoCurrentSnapshot', 'measureNoDiskPartsNoManifest', 'measurePartDirRemovedOnlyAtRefZeroAndRemovable', 'measurePinThenDeferUnpinBeforeLinks', 'segCloseIfIdleRequiresRefZero', 'segClosedHardLinksWithFilter', 'segClosedLinkedUnderLock', 'segDecRefDeletesAtLastRelease', 'segDeletedSkipped', 'segLockFirst', 'segOpenIteratesShardList', 'segOpenPinsWithoutReopen', 'segOpenSkipsEmptyShard', 'segSnapshotNeverReopens', 'streamCurrentSnapshotIncRefUnderRLock', 'streamErrorRemovesDst', 'streamLinkErrorReturns', 'streamLoopSkipsMemParts', 'streamManifestAfterLinks', 'streamManifestNamedByEpoch', 'streamManifestNamesAllParts', 'streamNilSnapshotReturnsErrNoCurrentSnapshot', 'streamNoDiskPartsNoManifest', 'streamPartDirRemovedOnlyAtRefZeroAndRemovable', 'streamPinThenDeferUnpinBeforeLinks', 'traceCurrentSnapshotIncRefUnderRLock', 'traceErrorRemovesDst', 'traceLinkErrorReturns', 'traceLoopSkipsMemParts', 'traceManifestAfterLinks', 'traceManifestNamedByEpoch', 'traceManifestNamesAllParts', 'traceNilSnapshotReturnsErrNoCurrentSnapshot', 'traceNoDiskPartsNoManifest', 'tracePartDirRemovedOnlyAtRefZeroAndRemovable', 'tracePinThenDeferUnpinBeforeLinks', 'closedExcludes_tie']]
+        "trace_snapshot_legacy_counterexample_flush", "reachable_inv", "reachable_wf"]] + ["Banyan.Tie.C19." + t for t in ['copySegmentsTouchesNothing', 'dbErrorRemovesDst', 'dbStopsAtFirstError', 'dbUsesCopySegments', 'measureCurrentSnapshotIncRefUnderRLock', 'measureErrorRemovesDst', 'measureLinkErrorReturns', 'measureLoopSkipsMemParts', 'measureManifestAfterLinks', 'measureManifestNamedByEpoch', 'measureManifestNamesAllParts', 'measureNilSnapshotReturnsErrNoCurrentSnapshot', 'measureNoDiskPartsNoManifest', 'measurePartDirRemovedOnlyAtRefZeroAndRemovable', 'measurePinThenDeferUnpinBeforeLinks', 'segCloseIfIdleRequiresRefZero', 'segClosedHardLinksWithFilter', 'segClosedLinkedUnderLock', 'segDecRefDeletesAtLastRelease', 'segDeletedSkipped', 'segLockFirst', 'segOpenIteratesShardList', 'segOpenPinsWithoutReopen', 'segOpenSkipsEmptyShard', 'segSnapshotNeverReopens', 'streamCurrentSnapshotIncRefUnderRLock', 'streamErrorRemovesDst', 'streamLinkErrorReturns', 'streamLoopSkipsMemParts', 'streamManifestAfterLinks', 'streamManifestNamedByEpoch', 'streamManifestNamesAllParts', 'streamNilSnapshotReturnsErrNoCurrentSnapshot', 'streamNoDiskPartsNoManifest', 'streamPartDirRemovedOnlyAtRefZeroAndRemovable', 'streamPinThenDeferUnpinBeforeLinks', 'traceCurrentSnapshotIncRefUnderRLock', 'traceErrorRemovesDst', 'traceLinkErrorReturns', 'traceLoopSkipsMemParts', 'traceManifestAfterLinks', 'traceManifestNamedByEpoch', 'traceManifestNamesAllParts', 'traceNilSnapshotReturnsErrNoCurrentSnapshot', 'traceNoDiskPartsNoManifest', 'tracePartDirRemovedOnlyAtRefZeroAndRemovable', 'tracePinThenDeferUnpinBeforeLinks', 'traceCorePinnedInsideFence', 'traceNilSnapshotReleasesFence', 'traceFenceReleasedOnlyByHelper', 'traceIndexLinkedInsideFence', 'tracePublicationsHoldFenceExclusively', 'traceSinglePublicationSite', 'closedExcludes_tie']]
     go_driver = "c19"
     lean_driver = "C19"
     counts = {"quick": 500, "thorough": 8000}
@@ -700,6 +749,10 @@ class C19(vlib.Spec):
 
     def compare(self, line, g, l):
         g = re.sub(r" (kinds|at)=\S+", "", g)
+        if " sq=" in line:
+            # an operation and the snapshot run on two goroutines: the reference counts seen at the first calls
+            # include the publisher's transient references (timing dependent); everything else is determined
+            g, l = re.sub(r" hooks=\S+", "", g), re.sub(r" hooks=\S+", "", l)
         if line.startswith("ttb") and self.has_early(line, g):
             # the model is of the repaired procedure (operations arriving between the two pins wait for the
             # publication section to end); the reference counts observed *at* those early calls differ on purpose
@@ -714,7 +767,7 @@ class C19(vlib.Spec):
         for t, r in zip(toks, recs):
             m = re.search(r" pin=(\S+)", r)
             n = len([x for x in ids(m.group(1)) if not x.endswith("m")]) if m else 0
-            if any(p <= n for p in parse_snap(t)[0]):
+            if not t.startswith("sq=") and any(p <= n for p in parse_snap(t)[0]):
                 return True
         return False
 
@@ -723,6 +776,8 @@ class C19(vlib.Spec):
         k = f[0]
         if any(t.startswith("s") and "@" in t for t in f[1:]):
             k += "+interleaved"
+        if any(t.startswith("sq=") for t in f[1:]):
+            k += "+queued-publication"
         if any(t.startswith("s") and "!" in t for t in f[1:]):
             k += "+fault"
         if k.startswith("db") and any(t[0] == "c" for t in f[1:]):
